@@ -120,7 +120,7 @@ func setup() {
 		w, _ := build.WebP{Chunks: []build.RIFFChunk{{FourCC: "VP8X", Data: build.VP8XHeader(0x20, uint32(9+i), 6)}, {FourCC: "ICCP", Data: prof}, {FourCC: "VP8L", Data: build.VP8LHeader(uint16(9+i), 6, false)}}}.Bytes()
 		family = append(family, p, j, w)
 	}
-	for i := 0; i < 12; i++ {
+	for i := 0; i < 80; i++ { // more distinct descriptions than a small cache (or two generations of one) holds
 		prof := build.SimpleProfile(build.TextDesc(fmt.Sprintf("standalone profile %d", i)), 100+i*41)
 		if i%2 == 1 {
 			// v4 descriptions: several records, an English one among them, texts of different lengths and scripts
@@ -412,7 +412,7 @@ func run(op trial.Op, g int) uint64 {
 		}
 		return digest(o.OK, o.Format, o.W, o.H, o.ICC, o.ICCErr, rest)
 	case "Profile":
-		// one of 12 profiles whose headers differ in every field; every fourth call first parses a header that is
+		// one of 80 profiles whose headers differ in every field; every fourth call first parses a header that is
 		// rejected (error paths hand resources back too)
 		if a%4 == 0 {
 			icc.NewProfileReader(bytes.NewReader(rejected[a%len(rejected)])).ReadProfile()
